@@ -430,7 +430,7 @@ PROPS = {
              "displacement in [-n-3, n+3] for n <= 6, with wide loads at the target; call kinds 0..15; le/be immediates; xadd immediates; "
              "every opcode as the last instruction and after a wide load; length classes 0, 1..17, 8*999999, 8*10^6, 8*(10^6+1); random soups "
              "and mutated valid programs. Oracle: the declarative WellFormed predicate evaluated by the Lean driver on the same bytes "
-             "(programs up to 4096 slots). Non-trivial: distinct byte string whose length is a positive multiple of 8.",
+             "(programs up to 4096 slots, and longer ones with at most 64 jumps or calls: the length-limit cases). Non-trivial: distinct byte string whose length is a positive multiple of 8.",
         trusted=["decide +kernel over the 256-opcode table (kernel evaluation, no extra axiom)"],
     ),
     "C17": dict(
